@@ -24,6 +24,116 @@ def _stmt_text(n):
     return norm(n.ast) if n.kind not in ("for",) else norm(n.ast.iter)
 
 
+def _linear(e: ast.AST, env: dict, depth=0):
+    """expression as a*i + b*n + c over the loop index i (0-based) and the list length n; None if not linear"""
+    if depth > 6:
+        return None
+    if isinstance(e, ast.Constant) and isinstance(e.value, int) and not isinstance(e.value, bool):
+        return (0, 0, e.value)
+    if isinstance(e, ast.Name):
+        return env.get(e.id)
+    if isinstance(e, ast.Call) and isinstance(e.func, ast.Name) and e.func.id == "len" and len(e.args) == 1:
+        return env.get("len:" + norm(e.args[0]))
+    if isinstance(e, ast.BinOp) and isinstance(e.op, (ast.Add, ast.Sub)):
+        a, b = _linear(e.left, env, depth + 1), _linear(e.right, env, depth + 1)
+        if a is None or b is None:
+            return None
+        sg = 1 if isinstance(e.op, ast.Add) else -1
+        return (a[0] + sg * b[0], a[1] + sg * b[1], a[2] + sg * b[2])
+    return None
+
+
+def _outer_trivia_on_last(fn: ast.AST, lp: ast.For, layers_expr: ast.AST) -> str:
+    """which iteration of the wrapping loop hands `self.before` to the LetExpression it builds: 'last' | 'first' | 'every' |
+    'unknown'.  The index arithmetic is evaluated as a linear form, so `index == total - 1`, `depth == len(layers)` with
+    enumerate(start=1), `remaining == 0` … are the same thing."""
+    let_calls = [c for c in ast.walk(lp) if isinstance(c, ast.Call) and callee(c) == "LetExpression"]
+    if len(let_calls) != 1:
+        return "unknown"
+    kw = next((k.value for k in let_calls[0].keywords if k.arg == "before"), None)
+    if kw is None:
+        return "unknown"
+    lname = norm(layers_expr)
+    env: dict = {"len:" + lname: (0, 1, 0)}
+    # the index variable of enumerate(…, start)
+    it = lp.iter
+    if isinstance(it, ast.Call) and isinstance(it.func, ast.Name) and it.func.id == "enumerate" and isinstance(lp.target, ast.Tuple) \
+            and isinstance(lp.target.elts[0], ast.Name):
+        start = 0
+        if len(it.args) > 1 and isinstance(it.args[1], ast.Constant):
+            start = it.args[1].value
+        for k in it.keywords:
+            if k.arg == "start" and isinstance(k.value, ast.Constant):
+                start = k.value.value
+        env[lp.target.elts[0].id] = (1, 0, start)
+    # single-definition integer locals (`total = len(layers)`, `outermost = total - 1`)
+    for _ in range(3):
+        for d in ast.walk(fn):
+            if isinstance(d, ast.Assign) and len(d.targets) == 1 and isinstance(d.targets[0], ast.Name) and d.targets[0].id not in env:
+                if sum(1 for x in ast.walk(fn) if isinstance(x, ast.Name) and x.id == d.targets[0].id and isinstance(x.ctx, ast.Store)) == 1:
+                    v = _linear(d.value, env)
+                    if v is not None:
+                        env[d.targets[0].id] = v
+
+    def truth_of(test: ast.AST, depth=0):
+        """'last' / 'first' / None for a test expression"""
+        t, neg = test, False
+        while isinstance(t, ast.UnaryOp) and isinstance(t.op, ast.Not):
+            t, neg = t.operand, not neg
+        if isinstance(t, ast.Name) and depth < 3:
+            ds = [d for d in ast.walk(fn) if isinstance(d, ast.Assign) and len(d.targets) == 1 and norm(d.targets[0]) == t.id]
+            if len(ds) == 1:
+                r = truth_of(ds[0].value, depth + 1)
+                return r if not neg else None
+            return None
+        if isinstance(t, ast.Compare) and len(t.ops) == 1 and isinstance(t.ops[0], (ast.Eq, ast.Is)) and not neg:
+            a, b = _linear(t.left, env), _linear(t.comparators[0], env)
+            if a is not None and b is not None:
+                dlt = (a[0] - b[0], a[1] - b[1], a[2] - b[2])
+                if dlt in ((1, -1, 1), (-1, 1, -1)):
+                    return "last"  # i == n - 1
+                if dlt in ((1, 0, 0), (-1, 0, 0)):
+                    return "first"  # i == 0
+            # `layer is layers[0]` in a reversed loop is the last iteration
+            for x, y in ((t.left, t.comparators[0]), (t.comparators[0], t.left)):
+                if isinstance(y, ast.Subscript) and norm(y.value) == lname and isinstance(y.slice, ast.Constant) and y.slice.value == 0 \
+                        and isinstance(lp.target, ast.Tuple) and norm(x) == norm(lp.target.elts[-1]):
+                    return "last"
+        return None
+
+    def side(e: ast.AST):
+        return "self" if norm(e) == "self.before" else ("empty" if isinstance(e, (ast.List, ast.Tuple)) and not e.elts else None)
+
+    if norm(kw) == "self.before":
+        return "every"
+    if isinstance(kw, ast.IfExp):
+        which = truth_of(kw.test)
+        a, b = side(kw.body), side(kw.orelse)
+        if which and a == "self" and b == "empty":
+            return which
+        return "unknown"
+    if isinstance(kw, ast.Name):
+        # `if <test>: x = self.before … else: x = []` inside the loop
+        for st in ast.walk(lp):
+            if isinstance(st, ast.If) and st.orelse:
+                def assigned(block):
+                    for d in block:
+                        if isinstance(d, ast.Assign) and any(norm(t) == kw.id for t in d.targets):
+                            return side(d.value)
+                        if isinstance(d, ast.Assign) and isinstance(d.targets[0], ast.Tuple) and isinstance(d.value, ast.Tuple):
+                            for t, v in zip(d.targets[0].elts, d.value.elts):
+                                if norm(t) == kw.id:
+                                    return side(v)
+                    return None
+                a, b = assigned(st.body), assigned(st.orelse)
+                which = truth_of(st.test)
+                if which and a == "self" and b == "empty":
+                    return which
+                if which and a == "empty" and b == "self":
+                    return {"last": "unknown", "first": "unknown"}[which]
+    return "unknown"
+
+
 def run(prog: Program) -> Results:
     res = Results("C09")
     sv = prog.func("set_value")
@@ -38,63 +148,84 @@ def run(prog: Program) -> Results:
     r1 = res.rule("R-C09-1", "one orientation everywhere: layers are stored and listed outermost first (own scope, then the stack); "
                   "selectors count from the end; re-wrapping iterates reversed with the outer trivia on the last iteration", floor=5)
 
-    def own_then_stack(f, list_name, own_marker, stack_marker, label):
-        cfg = CFG(f.node)
+    from sa.seqbuild import SeqBuilder, _rev
+    from sa.util import Aliases
 
-        def is_own(n):
-            t = _stmt_text(n)
-            return n.kind == "stmt" and t.startswith(f"{list_name}.append(") and own_marker(n)
-
-        def is_stack(n):
-            t = _stmt_text(n)
-            if n.kind == "stmt" and isinstance(n.ast, (ast.Assign, ast.AnnAssign, ast.AugAssign)) and getattr(n.ast, "value", None) is not None:
-                tg = n.ast.targets[0] if isinstance(n.ast, ast.Assign) else n.ast.target
-                if norm(tg) == list_name and ".stack" in norm(n.ast.value):
-                    return True  # the list is initialised / extended from the stacked layers
-            return (n.kind == "stmt" and (t.startswith(f"{list_name}.extend(") or t.startswith(f"{list_name}.append("))
-                    and stack_marker(n)) or (n.kind == "for" and "stack" in norm(n.ast.iter) and any(
-                        isinstance(c, ast.Call) and norm(c.func) == f"{list_name}.append" for c in ast.walk(n.ast)))
-
-        a, b, ok = _order_of(cfg, is_own, is_stack)
+    def own_then_stack(f, list_name, label):
+        """the list is read as a sequence of segments (sa/seqbuild.py): the expression's own layer, then one element per stacked
+        layer in stored order — however that is spelled (append in a loop, extend with a generator, list display, helper)"""
+        sb = SeqBuilder(f.node)
+        seq = sb.sequence(list_name)
+        kinds = sb.kinds(seq, lambda t: ".stack" in t) if seq is not None else []
         r1.instances += 1
-        r1.ob(ok, {"site": f.key, "own_layer": [_stmt_text(x)[:60] for x in a], "stack_layers": [_stmt_text(x)[:60] for x in b]})
-        if not a or not b:
+        if seq is None or "first" not in kinds or not any(k.startswith("second") for k in kinds):
             res.unclass(f"{f.key}: the 'own layer, then stacked layers' construction of `{list_name}` was not recognised")
-        elif not ok:
-            res.add("R-C09-1", (f.key, "layer order", label), f.loc(b[0].ast),
+            return
+        first_second = kinds.index(next(k for k in kinds if k.startswith("second")))
+        ok = "second-reversed" not in kinds and "first" not in kinds[first_second:]
+        r1.ob(ok, {"site": f.key, "list": list_name, "segments": kinds})
+        if not ok:
+            at = next((x[1] for x, k in zip(seq, kinds) if k.startswith("second")), f.node)
+            res.add("R-C09-1", (f.key, "layer order", label), f.loc(at),
                     f"{f.key} does not list the expression's own (outermost) layer before the stacked inner layers: "
                     f"selectors and re-wrapping would address a different let layer")
+
+    def resolve_copy(fnode, name):
+        """`inner = layers` copies are followed to the list that is built"""
+        seen = set()
+        while name not in seen:
+            seen.add(name)
+            ds = [d for d in ast.walk(fnode) if isinstance(d, ast.Assign) and len(d.targets) == 1 and norm(d.targets[0]) == name]
+            if len(ds) == 1 and isinstance(ds[0].value, ast.Name):
+                name = ds[0].value.id
+            else:
+                break
+        return name
 
     # (a) to_scoped_expression: value's previous own layer first, then its stack; own bindings become `scope`
     stack_kw = next((k.value.id for c in ast.walk(tse.node) if isinstance(c, ast.Call) and callee(c) == "ScopeState"
                      for k in c.keywords if k.arg == "stack" and isinstance(k.value, ast.Name)), None)
     if stack_kw is None:
         res.unclass("to_scoped_expression: `ScopeState(stack=<list>)` not found")
-        stack_kw = "scope_stack"
-    own_then_stack(tse, stack_kw, lambda n: True, lambda n: "stack" in _stmt_text(n).split("(", 1)[1] and _stmt_text(n).startswith(f"{stack_kw}.extend("), "to_scoped_expression")
-    txt = norm(tse.node)
+    else:
+        own_then_stack(tse, stack_kw, "to_scoped_expression")
     r1.instances += 1
-    ok = "'scope': list(self.local_variables)" in txt and f"stack={stack_kw}" in txt
+    lifted = False
+    for d in ast.walk(tse.node):
+        if isinstance(d, ast.Dict):
+            for k, v in zip(d.keys, d.values):
+                if isinstance(k, ast.Constant) and k.value == "scope" and "self.local_variables" in norm(v):
+                    lifted = True
+    ok = lifted and stack_kw is not None
     r1.ob(ok, {"site": tse.key, "own_bindings_become": "scope", "previous_layers_become": "stack"})
     if not ok:
         res.add("R-C09-1", (tse.key, "lifting"), tse.loc(),
                 "to_scoped_expression does not lift the let's own bindings into `scope` and the body's previous layers into `stack`")
-    # (b) rebuild_scoped
-    loops = [n for n in walk_no_nested(rbs.node) if isinstance(n, ast.For) and norm(n.iter).startswith("enumerate(reversed(")]
-    rb_layers = norm(loops[0].iter)[len("enumerate(reversed("):-2] if loops else "layers"
-    own_then_stack(rbs, rb_layers, lambda n: True, lambda n: "stack" in _stmt_text(n), "rebuild_scoped")
+    # (b) rebuild_scoped: the wrapping loop runs innermost-first and only its last iteration (the outermost let) carries the
+    # node's own trivia
+    wrap_loops = [n for n in walk_no_nested(rbs.node) if isinstance(n, ast.For)
+                  and any(isinstance(c, ast.Call) and callee(c) == "LetExpression" for c in ast.walk(n))]
     r1.instances += 1
-    an = alpha(rbs.node, rbs.node, anonymous=True)
-    ok = bool(loops) and "$ = $ == $ - 1" in an and "before=self.before if $ else []" in an and "after=self.after if $ else []" in an
-    r1.ob(ok, {"site": rbs.key, "wrap": "reversed(layers), outer trivia on last"})
-    if not ok:
-        res.add("R-C09-1", (rbs.key, "wrapping order"), rbs.loc(),
-                "rebuild_scoped does not wrap layers innermost-first (`reversed(layers)`) with the node's own trivia on the outermost let")
+    if len(wrap_loops) != 1:
+        res.unclass("rebuild_scoped: the loop that wraps the body in LetExpression layers was not found")
+    else:
+        lp = wrap_loops[0]
+        it, rev = _rev(lp.iter)
+        if isinstance(it, ast.Name):
+            own_then_stack(rbs, resolve_copy(rbs.node, it.id), "rebuild_scoped")
+        else:
+            res.unclass("rebuild_scoped: the wrapping loop does not iterate a local list of layers")
+        verdict = _outer_trivia_on_last(rbs.node, lp, it)
+        ok = rev and verdict == "last"
+        r1.ob(ok, {"site": rbs.key, "wrap": "reversed(layers), outer trivia on last", "iterates_reversed": rev, "own_trivia_on": verdict})
+        if verdict == "unknown" and rev:
+            res.unclass("rebuild_scoped: which iteration of the wrapping loop receives self.before/self.after was not recognised")
+        elif not ok:
+            res.add("R-C09-1", (rbs.key, "wrapping order"), rbs.loc(),
+                    "rebuild_scoped does not wrap layers innermost-first (`reversed(layers)`) with the node's own trivia on the outermost let")
     # (c) _collect_scope_layers
     c_layers = next((norm(n.value) for n in csl.node.body if isinstance(n, ast.Return) and isinstance(n.value, ast.Name)), "layers")
-    csl_cfg = CFG(csl.node)
-    in_loop = {id(x) for lp in ast.walk(csl.node) if isinstance(lp, ast.For) for x in ast.walk(lp)}
-    own_then_stack(csl, c_layers, lambda n: id(n.ast) not in in_loop, lambda n: False, "_collect_scope_layers")
+    own_then_stack(csl, resolve_copy(csl.node, c_layers), "_collect_scope_layers")
     # (d) selector indexing
     for f, pat in ((sv, "{l}[-{d}]"), (rv, "len({l}) - {d}")):
         l_, d_, _t = scope_creation_parts(f.node)
